@@ -45,7 +45,9 @@ class EventFactory:
                 print(f'Unknown event class "{name}": {err}')
                 continue
             args = options[EventClazz.PREFIX].toJSON(exclude={'_type'})
-            retval.append(EventClazz(**args))
+            ev = EventClazz(**args)
+            ev.check_parameters()
+            retval.append(ev)
         return retval
 
     @classmethod
